@@ -217,7 +217,7 @@ def build_harness(scratch, pkg, access=(), extra_overlay=None, kit=True, tags="v
         for f in os.listdir(os.path.join(HARNESS, "kit")):
             if f.endswith(".go"):
                 replace[os.path.join(REPO, "internal/verifh/kit", f)] = os.path.join(HARNESS, "kit", f)
-    for extra in ("runkit",):
+    for extra in ("runkit", "hook"):
         d = os.path.join(HARNESS, extra)
         if os.path.isdir(d):
             for f in os.listdir(d):
@@ -298,3 +298,60 @@ def known_findings(pid):
             if m and m.group(1) == pid:
                 fixed.append(m.group(2))
     return known, fixed
+
+
+# ------------------------------------------------------------------ instrumentation (generated from the current sources)
+
+INSTRUMENT_FILES = [
+    "internal/progress/average.go", "internal/progress/stats.go",
+    "internal/workers/trigger_pool.go", "internal/workers/pool_manager.go", "internal/workers/continuous_pool.go",
+    "internal/raterun/runner.go", "internal/run/result.go", "internal/run/test_runner.go",
+    "internal/trigger/api/iteration_worker.go", "internal/trigger/file/stages_worker.go",
+]
+
+
+def instrument(scratch, files=None):
+    """Builds tools/instrument, instruments the current /repo sources, returns
+    (overlay dict, listing dict file -> text)."""
+    files = files or INSTRUMENT_FILES
+    tool = os.path.join(scratch, "instrument")
+    if not os.path.exists(tool):
+        rc, out = sh(["go", "build", "-o", tool, "."], cwd=os.path.join(VERIF, "tools", "instrument"), env=GOENV, timeout=300)
+        if rc != 0:
+            raise RuntimeError("building tools/instrument failed: " + out[-800:])
+    overlay = {}
+    listing = {}
+    d = os.path.join(scratch, "instrumented")
+    os.makedirs(d, exist_ok=True)
+    for f in files:
+        src = os.path.join(REPO, f)
+        if not os.path.exists(src):
+            raise RuntimeError("source file to instrument is missing: " + f)
+        dst = os.path.join(d, f.replace("/", "__"))
+        rc, out = sh([tool, "-in", src, "-out", dst, "-list"], timeout=120)
+        if rc != 0:
+            raise RuntimeError("instrumenting %s failed: %s" % (f, out[-800:]))
+        overlay[src] = dst
+        listing[f] = out
+    overlay[os.path.join(REPO, "internal/verifh/hook/hook.go")] = os.path.join(HARNESS, "hook", "hook.go")
+    return overlay, listing
+
+
+def syncops_drift(listing, functions):
+    """Compares the sync-op listing of the given 'file::Function' entries with
+    the committed expectation corpus/syncops.json. Returns list of differences."""
+    p = os.path.join(VERIF, "corpus", "syncops.json")
+    expected = json.load(open(p)) if os.path.exists(p) else {}
+    diffs = []
+    current = {}
+    for f, text in listing.items():
+        for line in text.split("\n"):
+            if ": " in line:
+                fn, ops = line.split(": ", 1)
+                current[f + "::" + fn] = ops.strip()
+    for key in functions:
+        if key not in expected:
+            continue
+        if current.get(key) != expected[key]:
+            diffs.append((key, expected[key], current.get(key)))
+    return diffs, current
